@@ -1,5 +1,6 @@
 From Coq Require Import Extraction ExtrOcamlBasic QArith.
-From BCT Require Import Model.Clustering.
+From BCT Require Import Model.Clustering Model.Distance Model.EfficiencyLocal Model.Assortativity.
 Extraction Language OCaml.
 (* coqc runs with cwd = /verif/coq *)
-Extraction "../ocaml/gen/c10_model.ml" run_cc_bu run_cc_bd run_cc_wu run_cc_wd run_trans run_deg Qred Z.add.
+Extraction "../ocaml/gen/c10_model.ml" run_cc_bu run_cc_bd run_cc_wu run_cc_wd run_trans run_deg
+  run_dbin run_dwei run_effbin run_effwei run_eloc_bin run_eloc_wei run_assort Qred Z.add.
